@@ -48,7 +48,11 @@ type Parser struct {
 	// escTimeout is a timeout for interpretting an Esc keypress vs an
 	// escape sequence
 	escTimeout *time.Timer
-	mu         sync.Mutex
+	// escGen is incremented (under mu) before every transition and when
+	// the run loop ends; an escTimeout callback only acts if it still
+	// sees the generation of the ESC that started it
+	escGen uint64
+	mu     sync.Mutex
 
 	oscData []rune
 	apcData []rune
@@ -119,6 +123,7 @@ outer:
 		default:
 			r := p.readRune()
 			p.mu.Lock()
+			p.escGen++
 			p.state = anywhere(r, p)
 			if p.state == nil {
 				p.mu.Unlock()
@@ -130,6 +135,9 @@ outer:
 	if p.escTimeout != nil {
 		p.escTimeout.Stop()
 	}
+	p.mu.Lock()
+	p.escGen++
+	p.mu.Unlock()
 	p.emit(EOF{})
 	close(p.sequences)
 	p.closed <- true
@@ -463,14 +471,20 @@ func anywhere(r rune, p *Parser) stateFn {
 			p.exit = nil
 		}
 		p.clear()
+		gen := p.escGen
 		p.escTimeout = time.AfterFunc(10*time.Millisecond, func() {
 			verifEscTimer(0)
 			defer verifEscTimer(1)
-			p.emit(C0(0x1B))
 			p.mu.Lock()
+			defer p.mu.Unlock()
+			if p.escGen != gen {
+				// A read has returned, or the run loop has ended, since
+				// this ESC: it is not a lone ESC (anymore)
+				return
+			}
+			p.emit(C0(0x1B))
 			p.state = ground
 			p.ignoreST = false
-			p.mu.Unlock()
 		})
 		return escape
 	default:
